@@ -40,14 +40,16 @@ CHECKS = {
  "C07": ("other", "contract-based deductive verification of the Schema mutators against a two-view state model (mapping / attribute dictionary) + AST audits of the inherited dict mutators",
          "Schema.__field_setter__, __setitem__ (additional keys), __field_deleter__, pop, popitem, copy, clear (bounded: two declared fields), __post_init__: each single-key operation either raises with both views unchanged or stores only parsed values "
          "under the touched key/attribute, never the unprovided sentinel, leaves every other entry untouched, refuses required/immutable deletions; every mutating dict method is overridden; update/setdefault/|= go through __setitem__ (audits). "
-         "Property fields (__coerce_property__) and DataClass closures are interface-level only - hence 'other'.", "DESIGN 3 C07"),
+         "A changed field's dependant @property is recomputed after the store (bounded: one dependant; ghost marker on the interface contract of __coerce_property__); the DataClass setter / deleter closures are under contract. "
+         "The body of __coerce_property__ (user getter) is interface-level only - hence 'other'.", "DESIGN 3 C07"),
  "C04": ("other", "contract-based deductive verification: exceptional frames (`only ParseError escapes`) on the real parse-path functions",
          "Rule.parse, _parse_seq_args, _parse_tuple_args, _parse_map_args, _parse_contains, _parse_type_arg, LogicalType.logical_parse, ParserField.parse_value / parse_output_value, BaseParser.parse_addition, "
          "FunctionParser.parse_pos_type: every operation outside a handler is an obligation under the type knowledge at that point; leaves may raise any Exception. Two known findings (unhashable converted key / item). "
          "Termination of the converter loops and the function-call wrappers are not decided - hence 'other'.", "DESIGN 3 C04"),
  "C12": ("other", "contract-based deductive verification of the preference-dependent branches of the converters and container parsers; one syntactic audit",
          "Promises proved on the real code: _attempt_from (no unwrapping under no_explicit_cast; a multi-element collection never collapses under no_data_loss), to_null, to_bool (only unambiguous booleans under no_data_loss), "
-         "to_float / to_integer (only numbers under no_explicit_cast), _parse_tuple_args excess rule, transform_dataclass list rule, bytes decode strictly (audit). The subset clause (whatever converts under the flags converts to an equal value of the same type without them) "
+         "to_float / to_integer (only numbers under no_explicit_cast), _parse_tuple_args excess rule, transform_dataclass list rule, bytes decode strictly (audit), Options.__init__: no_data_loss turns an unspecified `addition` into False "
+         "(prefix-region contract on the first statement + audit that the rest stores the local). The subset clause (whatever converts under the flags converts to an equal value of the same type without them) "
          "is proved by self-composition of the real body for to_null and to_bool only; the other converters and the date/time converters are not decided - hence 'other'. One known finding (1/0 -> bool under no_explicit_cast).", "DESIGN 3 C12"),
  "C01": ("other", "contract-based deductive verification: type-conformance postconditions on converters and structural postconditions on the container parsers",
          "Proved: to_null / to_bool / to_float / to_integer return an instance of the requested (sub)class on every exit; TypeTransformer.apply / __call__ return the leaf conversion; the container parsers return element-wise converted results "
@@ -59,8 +61,10 @@ CHECKS = {
  "C15": ("other", "lemmas over the proved validator contracts, one per (keyword -> constraint) pair of CONSTRAINTS_MAP read from constant.py on every run",
          "For every standard keyword of the parser table the constraint it is mapped to accepts only values for which the keyword holds (the built type is at least as strict as the schema, 15 lemmas, all inputs). "
          "`building a type succeeds` and validity of returned instances against the whole schema are not decided - hence 'other'.", "DESIGN 3 C15"),
- "C17": ("other", "contract-based deductive verification of register_forward_ref (registration completeness) and resolve_forward_type",
-         "R1: a reference that cannot be evaluated yet is remembered under the key of its declaration site together with its constraints; R2: an evaluated reference is replaced by its value and reported, others are unchanged. "
+ "C17": ("other", "contract-based deductive verification of register_forward_ref (registration completeness, with loop invariant and variant), resolve_forward_type, ClassParser.globals, BaseParser.resolve_forward_refs (bounded)",
+         "R1: after registration this very reference object is pending in forward_refs whatever was registered before (the same name used in several annotations), nothing registered earlier is lost; R2: an evaluated reference is replaced by its value and reported, others are unchanged; "
+         "R3 (bounded: one pending reference): an unresolvable reference stays registered; ClassParser.globals: the class's own name always stands for the class itself, every other name as in the module, the module's namespace is not written. "
+         "One known finding (a ForwardRef shared through typing's alias cache is trusted whatever namespace evaluated it). "
          "Equality of behaviour with the direct spelling for every definition / first-use order, postponed evaluation and local scopes depends on typing's evaluator and module globals and is not decided - hence 'other'.", "DESIGN 3 C17"),
  "C06": ("other", "BOUNDED contract verification: field_first_parse and data_first_parse each verified against the same declarative field contract for one parser shape",
          "Bounded stand-in, not a proof for all declarations: for a parser with two declared fields (one with a second input name) and input keys a, x, b, zz in every presence combination (16), addition None/False/True, fail-fast and collecting, "
